@@ -631,6 +631,14 @@ class MatrixMachine:
 
 def gen_ops(rng, n_ops):
     ops = []
+    if rng.random() < 0.04:
+        # large-array mini history (arrays beyond any small-size fast path / chunk threshold): construction, a few
+        # reads and the final sweep only - the twin is built from the same values in another memory layout
+        for _ in range(2):
+            ops.append(["new", rng.choice(BASE_CLASSES), 48, rng.getrandbits(30), rng.randrange(24)])
+        for _ in range(3):
+            ops.append(["read", rng.randrange(2), rng.choice(["array", "T", "diagonal", "hash"])])
+        return ops
     n_new = rng.choice([2, 3, 4])
     for _ in range(n_new):
         ops.append(["new", rng.choice(BASE_CLASSES), rng.choice([1, 2, 3, 4]), rng.getrandbits(30), rng.randrange(24)])
